@@ -23,6 +23,12 @@ PROGRAMS = [
     ["-m", ";", "-m", "fa", "-c", "e"],
     ["-m", "vey", "-m", "gv", "-m", "d"],
     ["-c", "name=k", "e", "-m", "w", "-c", "name=v", "$"],
+    # the kind of a register (linewise / characterwise) and appended text are state too
+    ["-m", "wP", "-c", "e", "-m", "yy"],
+    ["-m", '"Ayiw', "-m", '$"ap'],                  # only ever appended to
+    ["-m", '"Ayiw', "-m", '$"ap', "-m", '"ayy'],
+    ["-m", "p", "-c", "$", "-m", "dd"],
+    ["-m", '"bP', "-m", '"Byiw', "-m", '"bp', "-c", "$"],
 ]
 
 
